@@ -96,6 +96,7 @@ type runState struct {
 	stop        bool
 	maxViol     int
 	assertsSeen int
+	pending     []pendingAssert
 }
 
 func (rs *runState) sharedWrite(in *Interp, what string, stamp int64) {
@@ -360,6 +361,7 @@ func (in *Interp) resetForConfig() {
 	in.baseDoms = map[*Term]ByteSet{}
 	in.side = nil
 	in.fmtCache = map[string][]*Term{}
+	in.memo = map[string]*memoEntry{}
 	in.noMerge = map[*ssa.Function]string{}
 	in.stats = Stats{}
 	in.funcsEntered = map[*ssa.Function]int64{}
@@ -434,6 +436,7 @@ func (in *Interp) RunConfig(cfg *Config, maxPaths int64, deadline time.Time) *Re
 		return finish()
 	}
 	in.run = rs
+	in.deadline = deadline
 	root := &dnode{}
 	baseLit, baseDom := in.litMark(), in.domMark()
 	for !root.done && !rs.stop {
@@ -488,6 +491,7 @@ func (in *Interp) RunConfig(cfg *Config, maxPaths int64, deadline time.Time) *Re
 				}
 			}
 		}
+		in.flushAsserts(rs, ctx.pc)
 		in.handleEnd(rs, end)
 		markDone(ctx.cur)
 		// free explored subtrees
@@ -583,6 +587,12 @@ func natKnown(in *Interp, fn *ssa.Function, args []Value) Value {
 	return in.tb.False
 }
 
+type pendingAssert struct {
+	cond  *Term
+	msg   string
+	pcLen int
+}
+
 func natAssert(in *Interp, fn *ssa.Function, args []Value) Value {
 	in.requireTop("vv.Assert")
 	rs := in.run
@@ -607,24 +617,63 @@ func natAssert(in *Interp, fn *ssa.Function, args []Value) Value {
 		rs.res.TrivAsserts++
 		return nil
 	}
-	pc := in.fullPC()
-	q := append(pc, in.tb.Not(cond))
+	rs.pending = append(rs.pending, pendingAssert{cond, msg, len(in.ctx.pc)})
+	if st < 0 {
+		panic(pathEnd{kind: endViolation, msg: msg})
+	}
+	// assert-then-assume: the continuation of the path takes the condition for granted; the
+	// obligation itself is discharged by flushAsserts at the end of the path
+	in.assume(cond)
+	return nil
+}
+
+// flushAsserts discharges all assertions of the finished path with one query:
+// pc[:first] ∧ OR_j ( pc[first:at_j] ∧ ¬cond_j ).
+func (in *Interp) flushAsserts(rs *runState, pc []*Term) {
+	if len(rs.pending) == 0 {
+		return
+	}
+	pend := rs.pending
+	rs.pending = nil
+	tb := in.tb
+	first := pend[0].pcLen
+	disj := tb.False
+	for _, p := range pend {
+		c := tb.Not(p.cond)
+		for k := p.pcLen - 1; k >= first; k-- {
+			c = tb.And(pc[k], c)
+		}
+		disj = tb.Or(disj, c)
+	}
+	q := append(append([]*Term{}, pc[:first]...), disj)
 	v, model, note := in.solver.Check(q, in.side, rs.inputs)
-	rs.res.Asserts++
+	rs.res.Asserts += int64(len(pend))
 	switch v {
 	case VUnsat:
-		in.assume(cond)
-		return nil
+		return
 	case VSat:
+		// which assertion fails under the model?
+		memo := map[*Term]*big.Int{}
+		msg := pend[len(pend)-1].msg
+		for _, p := range pend {
+			ok := true
+			for k := first; k < p.pcLen; k++ {
+				if evalBig(pc[k], model, memo).Sign() == 0 {
+					ok = false
+					break
+				}
+			}
+			if ok && evalBig(p.cond, model, memo).Sign() == 0 {
+				msg = p.msg
+				break
+			}
+		}
 		w := Witness{Config: rs.cfg.ID, Pkg: rs.cfg.Pkg, Func: rs.cfg.Func, Args: rs.concreteArgs(model), Kind: "violation", Msg: msg, Active: rs.cfg.Active}
 		rs.res.Violations = append(rs.res.Violations, w)
 		if len(rs.res.Violations) >= rs.maxViol {
 			rs.stop = true
 		}
-		panic(pathEnd{kind: endViolation, msg: msg})
 	default:
-		rs.res.Inconcl = append(rs.res.Inconcl, Inconclusive{rs.cfg.ID, "solver unknown on assertion " + msg + ": " + note})
-		in.assume(cond)
-		return nil
+		rs.res.Inconcl = append(rs.res.Inconcl, Inconclusive{rs.cfg.ID, "solver unknown on assertions of a path (" + pend[0].msg + " ...): " + note})
 	}
 }
